@@ -946,6 +946,27 @@ def run(ctx):
     if not refs:
         ctx.anchor("SIBLING-FILTER", "FlexChild.flex-reference-filter", "no constructor of FlexChild filters `flex > 0` any more: flex_layout divides the remaining space by "
                    "flex/flex_total and subtracts the child's size, which needs every flex > 0; nothing establishes it")
+    # strings are read through an owning-capable type: serde's `&'de str` / `&'de [u8]` impls reject input that cannot be borrowed
+    # (JSON strings with escapes such as the chord "ctrl+\\", serde_json::Value, readers)
+    ctx.rule("OWNED-STR", "hand-written deserialisers read strings as Cow<str>/String (never <&str>/<&[u8]>::deserialize, next_value::<&str>, next_key::<&str>): "
+                          "a borrowed string cannot represent escaped JSON text", floor=3)
+    for b in prog.bodies:
+        if not b.file.startswith("src/"):
+            continue
+        for bb, t in b.calls():
+            nm = callee_name(t) or ""
+            if not re.search(r"Deserialize<'de>( for .*)?>::deserialize$|::next_(value|key|element)(_seed)?$|Deserializer<'de>>::deserialize_(str|bytes)$", nm):
+                continue
+            gens = t["fn"].get("generics") or []
+            strish = [g for g in gens if re.search(r"\bstr\b|\[u8\]|String|Vec<u8>", g)]
+            if not strish and not re.search(r" for &'a (str|\[u8\])>::deserialize$", nm):
+                continue
+            borrowed = [g for g in strish if re.match(r"^&('\w+ )?(str|\[u8\])$", g)] or ([nm] if re.search(r" for &'a (str|\[u8\])>::deserialize$", nm) else [])
+            ctx.instance("OWNED-STR", {"fn": b.path, "reads": strish or [nm], "borrowed_only": bool(borrowed)})
+            if borrowed:
+                ctx.violation("OWNED-STR", b.path, "borrowed-str", "%s deserialises a string as %s: serde can only hand out a borrowed &str when the input holds the text verbatim, "
+                              "so JSON strings with escapes (the chord \"ctrl+\\\\\") and owned inputs (serde_json::Value, readers) are rejected" % (b.path, borrowed[0]),
+                              sites=["%s:%d" % (b.file, t["line"])])
     obligations(ctx)
     from . import c19_sep
     c19_sep.run_sep(ctx)
